@@ -384,7 +384,8 @@ def c04(run):
     # an error in one operand of a statement: nothing may run after it
     FAIL, MARK, Q = sv('failing'), sv('marking'), sv('qq')
     defs = [('func', FAIL, [sv('pp')], [say(st('fail')), say(v(sv('nosuchname'))), ('return', num(0), False, False)]),
-            ('func', MARK, [sv('pp')], [say(st('mark')), ('return', num(0), False, False)])]
+            ('func', MARK, [sv('pp')], [say(st('mark')), ('return', num(0), False, False)]),
+            ('func', sv('both'), [sv('pp'), sv('rr')], [say(st('mark')), ('return', num(0), False, False)])]
     two = []
     for a, b in [(call(FAIL, num(1)), call(MARK, num(2))), (call(MARK, num(1)), call(FAIL, num(2)))]:
         two += [say(bin_('plus', a, b)), say(bin_('and', ('bin', 'eq', a, [num(0)], 'is'), b)),
@@ -392,7 +393,7 @@ def c04(run):
                 ('round', 'down', ('un', 'minus', sub(v(Q), a)), True),
                 ('push', sub(v(Q), a), ('list', [b])), ('push', v(Q), ('list', [a, b])),
                 put_at(a, v(Q), b), put_at(num(1), sub(v(Q), a), b), ('assign', ('lsub', sub(v(Q), a), b), 'plus', [num(1)], 'let'),
-                ('callstmt', MARK, [bin_('plus', a, b) if False else a]), ('pop', sub(v(Q), a), ('lsub', v(Q), b)),
+                ('callstmt', sv('both'), [a, b]), ('pop', sub(v(Q), a), ('lsub', v(Q), b)),
                 ('mut', 'cut', st('a,b'), ('lsub', v(Q), a), b), ('if', bin_('plus', a, b), [say(st('mark'))], None),
                 ('input', ('lsub', sub(v(Q), a), b))]
     cases3 = []
